@@ -377,7 +377,9 @@ impl Gen {
             }
             5 => {
                 let holder = self.holder_of(tok, c).unwrap_or(u);
-                let to = self.rng.pick(&USERS);
+                // now and then the recipient is one of the system's own contracts (the reward
+                // contract's own address included): the mirror must hold for every recipient
+                let to = if self.rng.chance(1, 7) { self.rng.pick(&[REWARD, HUB, BSEI, STSEI, DISP, REG, KEEPER]) } else { self.rng.pick(&USERS) };
                 let a = self.amount(c.token_balance(tok, holder), c);
                 match self.rng.below(6) {
                     0 | 1 | 2 => tx(holder, tok, Call::Tok(TokMsg::Transfer(to, a))),
@@ -433,11 +435,18 @@ impl Gen {
                     };
                     return match k {
                         3 => tx(o, tok, Call::Tok(TokMsg::DecAllow(sp, amt, e))),
-                        4 => tx(sp, tok, Call::Tok(TokMsg::TransferFrom(o, self.rng.pick(&USERS), amt))),
+                        4 => tx(sp, tok, Call::Tok(TokMsg::TransferFrom(o, if self.rng.chance(1, 5) { self.rng.pick(&[REWARD, HUB, DISP]) } else { self.rng.pick(&USERS) }, amt))),
                         5 => tx(sp, tok, Call::Tok(TokMsg::SendFrom(o, HUB, amt, if self.rng.chance(3, 4) { Hook::Unbond } else { Hook::Convert }))),
                         6 => tx(sp, tok, Call::Tok(TokMsg::BurnFrom(o, amt))),
                         _ => tx(sp, tok, Call::Tok(TokMsg::TransferFrom(o, sp, amt))),
                     };
+                }
+                // top-ups of an existing allowance, half of them without `expires` (which must keep
+                // the expiration the owner set)
+                if k < 3 && !pairs.is_empty() && self.rng.chance(1, 2) {
+                    let (o, sp, _) = self.rng.pick(&pairs);
+                    let e2 = if self.rng.chance(1, 2) { None } else { e };
+                    return tx(o, tok, Call::Tok(TokMsg::IncAllow(sp, 1 + a / 2, e2)));
                 }
                 match k {
                     0 | 1 | 2 => tx(owner, tok, Call::Tok(TokMsg::IncAllow(spender, a, e))),
